@@ -42,8 +42,6 @@
 (***************************************************************************)
 EXTENDS SigSpec
 
-HM == INSTANCE Hmac
-
 Ord(e) == BnVal(e.n)
 (* a scalar component in its range 0 <= x < n *)
 InRange(x, n) == ~BnNeg(x) /\ BLt(BnVal(x), n)
@@ -271,6 +269,73 @@ MpsOk(e) == /\ Clean(e) /\ e.ret = 0 /\ G2Claims(e, MpsKeys(e))
             /\ (GtIsOne(e, e.e) <=> MpsDef(e))
             /\ (e.honest = 1 => GtIsOne(e, e.e))
 
+(* ------------------------------------------------- homomorphic signatures *)
+DigVal(d) == BNorm(d)
+(* MKLHS: sig = sum_i [sk_i]( sum_j [f_ij](H(id_i || tag_j) + H(data || id_i)) + [mu_i]G1 ),  m = sum mu_i mod n.     *)
+(* The hash-to-curve outputs are bound from the execution: call k of the verifier must have hashed the expected     *)
+(* string (the order is: per signer H(data || id_i), then H(id_i || tag_j) for each coefficient).                   *)
+RECURSIVE MkOff(_, _)
+MkOff(e, i) == IF i = 1 THEN 0 ELSE MkOff(e, i - 1) + 1 + Len(e.f[i - 1])
+MkBound(e) ==
+    /\ e.hn = MkOff(e, Len(e.f) + 1) /\ Len(e.hm) = e.hn
+    /\ \A i \in 1..Len(e.f) :
+          /\ e.hm[MkOff(e, i) + 1]["in"] = e.data \o e.ids[i]
+          /\ \A j \in 1..Len(e.f[i]) : e.hm[MkOff(e, i) + 1 + j]["in"] = e.ids[i] \o e.tags[j]
+    /\ \A k \in 1..e.hn : G1El(e, e.hm[k].P)
+RECURSIVE MkInner(_, _, _)
+MkInner(e, i, j) ==
+    IF j > Len(e.f[i]) THEN PInf
+    ELSE LET cv == Crv(e)
+             Hj == PAdd(PAbs(e, e.hm[MkOff(e, i) + 1 + j].P), PAbs(e, e.hm[MkOff(e, i) + 1].P), cv)
+         IN  PAdd(PMulNat(DigVal(e.f[i][j]), Hj, cv), MkInner(e, i, j + 1), cv)
+RECURSIVE MkOuter(_, _)
+MkOuter(e, i) ==
+    IF i > Len(e.f) THEN PInf
+    ELSE LET cv == Crv(e)
+             gi == PAdd(MkInner(e, i, 1), PMulG(e, ModN(e.mu[i], Ord(e)), e.G1), cv)
+         IN  PAdd(PMulNat(Lg(e.pk[i]), gi, cv), MkOuter(e, i + 1), cv)
+RECURSIVE SumMod(_, _, _)
+SumMod(xs, n, i) == IF i > Len(xs) THEN <<>> ELSE BAddMod(ModN(xs[i], n), SumMod(xs, n, i + 1), n)
+MkShape(e) == /\ Len(e.f) >= 1 /\ Len(e.f) = Len(e.ids) /\ Len(e.f) = Len(e.mu) /\ Len(e.f) = Len(e.pk)
+              /\ \A i \in 1..Len(e.f) : Len(e.f[i]) <= Len(e.tags)
+MkDef(e) ==
+    /\ MkShape(e) /\ MkBound(e)
+    /\ G1El(e, e.sig) /\ G2AllIn(e.pk)
+    /\ ~BnNeg(e.m) /\ BnVal(e.m) = SumMod(e.mu, Ord(e), 1)
+    /\ PEq(PAbs(e, e.sig), MkOuter(e, 1))
+(* the verifier normalises slen (number of signers) points of an array that holds max flen of them *)
+MkOverrun(e) == \E i \in 1..Len(e.f) : \A k \in 1..Len(e.f) : Len(e.f) > Len(e.f[k])
+
+(* CMLHS (Schabhueser, Butin, Buchmann 2019), tag signatures by BLS:                                               *)
+(*   for every signer i: BLS(pk_i) on (encoding of z_i || data) is sig_i                                           *)
+(*   prod e(a_i, z_i) = prod e(c_i, y_i) e(r, G2) prod hs_i,l^f_il     and   e(G1, s) e(sum c_i, G2) = e([m]h, G2)  *)
+(* in the exponent (ghost logarithms of z_i, y_i, pk_i, s; the elements hs_i,l = e(G1, G2)^x_il of the key are    *)
+(* bound to their ghost exponents from key generation: xf = sum f_il x_il):                                       *)
+(*   sum [log z_i]a_i = sum [log y_i]c_i + r + [xf]G1          [log s]G1 + sum c_i = [m]h                          *)
+Enc2(e, q) == LET A == T2Abs(e, q) IN
+              IF A.inf THEN <<0>>
+              ELSE <<4>> \o BToBE(A.x[1], e.fcb) \o BToBE(A.x[2], e.fcb) \o BToBE(A.y[1], e.fcb) \o BToBE(A.y[2], e.fcb)
+CmKeys(e) == <<e.s>> \o e.z \o e.y \o e.pk
+RECURSIVE CmSum(_, _, _, _)
+CmSum(e, qs, ps, i) == IF i > Len(ps) THEN PInf ELSE PAdd(PMulG(e, Lg(qs[i]), ps[i]), CmSum(e, qs, ps, i + 1), Crv(e))
+RECURSIVE CmAdd(_, _, _)
+CmAdd(e, ps, i) == IF i > Len(ps) THEN PInf ELSE PAdd(PAbs(e, ps[i]), CmAdd(e, ps, i + 1), Crv(e))
+CmDef(e) ==
+    LET cv == Crv(e)  S == Len(e.z) IN
+    /\ S >= 1 /\ Len(e.y) = S /\ Len(e.pk) = S /\ Len(e.sig) = S /\ Len(e.a) = S /\ Len(e.c) = S /\ Len(e.f) = S
+    /\ G2AllIn(CmKeys(e))
+    /\ G1El(e, e.r) /\ G1El(e, e.h) /\ \A i \in 1..S : G1El(e, e.a[i]) /\ G1El(e, e.c[i])
+    /\ e.hn = S /\ Len(e.hm) = S
+    /\ \A i \in 1..S :
+          /\ e.hm[i]["in"] = Enc2(e, e.z[i].P) \o e.data /\ G1El(e, e.hm[i].P)
+          /\ G1Nz(e, e.sig[i]) /\ Lg(e.pk[i]) # <<>>
+          /\ PEq(PAbs(e, e.sig[i]), PMulG(e, Lg(e.pk[i]), e.hm[i].P))
+    /\ PEq(CmSum(e, e.z, e.a, 1),
+           PAdd(CmSum(e, e.y, e.c, 1), PAdd(PAbs(e, e.r), PMulG(e, ModN(e.xf, Ord(e)), e.G1), cv), cv))
+    /\ PEq(PAdd(PMulG(e, Lg(e.s), e.G1), CmAdd(e, e.c, 1), cv), PMulG(e, ModN(e.m, Ord(e)), e.h))
+(* the verifier's buffer has the size of the encoding of s and receives the encodings of the z_i *)
+CmOverrun(e) == T2Norm(e, e.s.P) /\ T2Abs(e, e.s.P).inf /\ \E i \in 1..Len(e.z) : ~(T2Norm(e, e.z[i].P) /\ T2Abs(e, e.z[i].P).inf)
+
 (* ----------------------------------------------------------------- accept *)
 PlainOk(e) == Clean(e) /\ e.ret = 0
 Sig2Accept(e) ==
@@ -288,9 +353,12 @@ Sig2Accept(e) ==
       [] e.op = "clb_ver"   -> G2Claims(e, ClbKeys(e)) /\ Verdict(e, ClbDef(e))
       [] e.op \in {"pss_ver", "psb_ver"} -> G2Claims(e, PsKeys(e)) /\ Verdict(e, PsDef(e))
       [] e.op \in {"mpss_ver", "mpsb_ver"} -> MpsOk(e)
-      [] e.op \in {"cls_gen", "cli_gen", "clb_gen", "pss_gen", "psb_gen", "mpss_gen", "mpsb_gen"} -> PcGenOk(e)
+      [] e.op = "mklhs_ver" -> e.crash = 0 /\ G2Claims(e, e.pk) /\ Verdict(e, MkDef(e))
+      [] e.op = "cmlhs_ver" -> e.crash = 0 /\ G2Claims(e, CmKeys(e)) /\ Verdict(e, CmDef(e))
+      [] e.op \in {"cls_gen", "cli_gen", "clb_gen", "pss_gen", "psb_gen", "mpss_gen", "mpsb_gen", "mklhs_gen", "cmlhs_gen"} -> PcGenOk(e)
       [] e.op \in {"pokdl_prv", "pokor_prv", "sokdl_sig", "sokor_sig", "vbnn_prv", "vbnn_sig", "ers_sig", "smlers_sig",
-                   "etrs_sig", "cls_sig", "cli_sig", "clb_sig", "pss_sig", "psb_sig", "mpss_sig", "mpsb_sig"} -> PlainOk(e)
+                   "etrs_sig", "cls_sig", "cli_sig", "clb_sig", "pss_sig", "psb_sig", "mpss_sig", "mpsb_sig",
+                   "mklhs_sig", "cmlhs_sig"} -> PlainOk(e)
       [] OTHER -> FALSE
 
 (* ---------------------------------------------------------- known findings *)
@@ -332,6 +400,12 @@ Sig2KnownKey(e) ==
             \* g = O is no generator: the equation degenerates to e(a, X + sum [m_i]Y_i) = 1
             IF Accepted(e) /\ G2Claims(e, PsKeys(e)) /\ G2AllIn(PsKeys(e)) /\ Lg(e.g) = <<>> /\ PsDefG(e, FALSE)
             THEN "C05-ps-identity-generator" ELSE ""
-      [] e.op \in {"mpss_ver", "mpsb_ver"} -> ""
+      [] e.op = "mklhs_ver" ->
+            \* undefined behaviour (reads and writes behind the array): abnormal end or a verdict that differs from the definition
+            IF MkShape(e) /\ MkOverrun(e) /\ G2Claims(e, e.pk) /\ (e.crash # 0 \/ ~Verdict(e, MkDef(e)))
+            THEN "C05-mklhs-normalises-signers-instead-of-labels" ELSE ""
+      [] e.op = "cmlhs_ver" ->
+            IF CmOverrun(e) /\ (e.crash # 0 \/ ~Verdict(e, CmDef(e)))
+            THEN "C05-cmlhs-buffer-sized-by-s" ELSE ""
       [] OTHER -> ""
 =============================================================================
